@@ -20,6 +20,12 @@ size_t peek_ha_respqueue(const struct KSI_AsyncService_st *s);
 size_t peek_handle_ref(const struct KSI_AsyncHandle_st *h);
 int peek_handle_state(const struct KSI_AsyncHandle_st *h);
 size_t peek_ctx_handle_recycle(struct KSI_CTX_st *ctx);
+struct KSI_AggregationHashChain_st;
+/* serialized 0x0801 element of an in-memory aggregation hash chain (malloc'ed, caller frees with free()); 0 on failure */
+struct KSI_HashChainLink_st;
+/* payload bytes (value of the 0x04 element) of a link's metadata sibling; 0 if the link has none */
+size_t peek_link_metadata(struct KSI_HashChainLink_st *l, unsigned char *buf, size_t cap);
+size_t peek_chain_bytes(struct KSI_CTX_st *ctx, struct KSI_AggregationHashChain_st *ch, unsigned char **out);
 
 #ifdef __cplusplus
 }
